@@ -238,6 +238,44 @@ def accuracy_oracle(args):
             return (f"update_{args['which']} on a local space of {nloc} entr{'y' if nloc == 1 else 'ies'} (bond dimension {args['chi']}) differs from exp(-i dt H_loc) "
                     f"by {err:.3e} (relative), dt={dt}")
         return None
+    if kind == "nested":
+        # evaluations in flight at the same time: an operator that itself evaluates an exponential of the same size (interaction picture
+        # U0^+ H1 U0), and an evaluation that is interrupted by an unrelated one of the same size (what two threads do to each other)
+        if args["sub"] == "interaction":
+            h0, h1 = herm(rng, n, 2.0), herm(rng, n, 3.0)
+            t0 = 0.4
+            u0 = scipy.linalg.expm(-1j * t0 * h0)
+            a = u0.conj().T @ h1 @ u0
+            op = lambda x: expm_krylov(lambda y: h0 @ y, h1 @ expm_krylov(lambda y: h0 @ y, x, t0), -t0)  # noqa: E731
+            v = rng.normal(size=n) + 1j * rng.normal(size=n)
+            out = expm_krylov(op, v.copy(), dt)
+            ref = scipy.linalg.expm(-1j * dt * a) @ v
+        else:
+            d = rng.uniform(-2, 2, size=n)
+            u = rng.normal(size=n) + 1j * rng.normal(size=n)
+            u /= np.linalg.norm(u)
+            d2 = rng.uniform(-3, 3, size=n)
+            w = rng.normal(size=n) + 1j * rng.normal(size=n)
+            calls = {"k": 0, "other": None}
+
+            def op(x):
+                calls["k"] += 1
+                if calls["k"] == 3:  # another evaluation of the same size runs to completion in the middle of this one
+                    calls["other"] = expm_krylov(lambda y: d2 * y, w.copy(), 0.7 * dt)
+                return d * x + 0.5 * u * np.vdot(u, x)
+
+            v = rng.normal(size=n) + 1j * rng.normal(size=n)
+            out = expm_krylov(op, v.copy(), dt)
+            calls["k"] = 10**9
+            ref = expm_krylov(op, v.copy(), dt)  # the same evaluation, undisturbed
+            if calls["other"] is not None and np.linalg.norm(calls["other"] - np.exp(-0.7j * dt * d2) * w) > 1e-8 * np.linalg.norm(w):
+                return f"nested ({args['sub']}, size {n}): the evaluation that ran in between is inaccurate"
+        if abs(np.linalg.norm(out) / np.linalg.norm(v) - 1) > 1e-8:
+            return f"nested ({args['sub']}, size {n}): norm ratio {np.linalg.norm(out) / np.linalg.norm(v):.10f} when another evaluation of the same size is in flight"
+        if np.linalg.norm(out - ref) > 1e-7 * np.linalg.norm(v):
+            return (f"nested ({args['sub']}, size {n}, dt={dt}): result is {np.linalg.norm(out - ref) / np.linalg.norm(v):.3e} away from the reference when another "
+                    f"evaluation of the same size is in flight (re-entrant operator / interleaved evaluations)")
+        return None
     if kind == "numba":
         big = args["n"]
         d = rng.uniform(-2, 2, size=big)
@@ -311,8 +349,12 @@ def search(ctx):
                          which=["bond", "site"][k % 2], dt=float(ctx.rng.choice([-0.7, 0.05, 0.3, 0.7])), mpo=["ising", "product", "ising"][(k // 2) % 3]))
     plan += [dict(kind="numba", seed=1, n=4095, dt=0.1), dict(kind="numba", seed=2, n=4096, dt=0.1), dict(kind="numba", seed=3, n=1200, dt=-0.2),
              dict(kind="numba", seed=5, n=4097, dt=0.5), dict(kind="numba", seed=6, n=4225, dt=-0.7)]  # odd lengths on the compiled path (65x65 bonds, qutrit sites)
+    plan += [dict(kind="nested", sub="interaction", seed=11, n=24, dt=0.3), dict(kind="nested", sub="interaction", seed=12, n=96, dt=-0.5),
+             dict(kind="nested", sub="interleaved", seed=13, n=96, dt=0.4), dict(kind="nested", sub="interleaved", seed=14, n=4096, dt=0.3)]
     if not ctx.quick:
         plan += [dict(kind="numba", seed=4, n=5000, dt=0.05)]
+        plan += [dict(kind="nested", sub=["interaction", "interleaved"][k % 2], seed=int(ctx.rng.integers(0, 2**31)), n=int(ctx.rng.choice([16, 40, 130])), dt=float(ctx.rng.choice([-0.6, 0.2, 0.9])))
+                 for k in range(12)]
     for a in plan:
         try:
             with common.time_limit(300):
